@@ -177,11 +177,13 @@ pub broadcast group group_answer { lemma_chain_nil, lemma_append_to_nil }
 // C18: what this server process was configured with (ListenArgs); same constants as in units local / recursive
 pub uninterp spec fn configured_forwarder() -> SocketAddr;
 pub uninterp spec fn configured_port() -> u16;
+pub uninterp spec fn forwarding_mode() -> bool;
 // the resolver: any metrics, any result, except for the clause unit `local` proves for `resolve` (local/resolve/post:answer_holds_only_the_question_name_and_its_alias_chain)
 #[verifier::external_body]
 pub async fn resolve(is_recursive: bool, protocol_mode: ProtocolMode, upstream_dns_port: u16, forward_address: Option<SocketAddr>,
     zones: &ZonesGuard, cache: &SharedCache, question: &Question) -> (r: (Metrics, Result<ResolvedRecord, ResolutionError>))
     requires upstream_dns_port == configured_port(), forward_address is Some ==> forward_address->Some_0 == configured_forwarder(), // [C18:the_resolver_is_given_the_configured_port_and_forwarder]
+        forwarding_mode() == (forward_address is Some), // [C18:the_resolver_is_given_the_configured_port_and_forwarder]
     ensures question.qtype != QueryType::Wildcard && r.1 is Ok ==> chain_ok(resolved_rrs(r.1->Ok_0), question.name),
             r.1 is Ok ==> typed_ok(resolved_rrs(r.1->Ok_0), question.qtype),
 { unimplemented!() }
@@ -273,7 +275,7 @@ MAIN_SPECS = {
         query.questions@.len() == 1 && question_unknown(query.questions@[0]) ==> r is Err, // [C09:refused_for_unknown_type_or_class]
         query.questions@.len() > 1 ==> r is Err, // [C09:refused_for_several_questions]"""},
     "resolve_and_build_response": {"props": ["C09", "C01", "C18"],
-        "contract": """    requires args.upstream_dns_port == configured_port(), args.forward_address is Some ==> args.forward_address->Some_0 == configured_forwarder(),
+        "contract": """    requires args.upstream_dns_port == configured_port(), args.forward_address is Some ==> args.forward_address->Some_0 == configured_forwarder(), forwarding_mode() == (args.forward_address is Some),
     ensures
         echoes(query, r), // [C09:reply_echoes_id_opcode_rd_question]
         r.header.recursion_available == !args.authoritative_only, // [C09:ra_exactly_when_recursion_offered]
@@ -288,7 +290,7 @@ MAIN_SPECS = {
         query.questions@.len() == 1 ==> typed_ok(r.answers@, query.questions@[0].qtype), // [C09,C10:answer_section_holds_only_aliases_and_records_of_the_asked_type]""",
         "entry": BU + " broadcast use group_answer;"},
     "tcp_connection__": {"props": ["C09"], "ret": "fin",
-        "contract": """    requires !conn__.failed@, args.upstream_dns_port == configured_port(), args.forward_address is Some ==> args.forward_address->Some_0 == configured_forwarder(),
+        "contract": """    requires !conn__.failed@, args.upstream_dns_port == configured_port(), args.forward_address is Some ==> args.forward_address->Some_0 == configured_forwarder(), forwarding_mode() == (args.forward_address is Some),
     ensures
         is_prefix_u8(conn__.log@, fin.log@),
         id_of_partial(fin.inp@) is None ==> fin.log@ == conn__.log@, // [C09:tcp_nothing_is_sent_when_no_id_arrived]
@@ -315,7 +317,7 @@ MAIN_SPECS = {
     }
 }"""}]},
     "handle_raw_message": {"props": ["C09"],
-        "contract": """    requires buf@.len() <= 0xffff, args.upstream_dns_port == configured_port(), args.forward_address is Some ==> args.forward_address->Some_0 == configured_forwarder(),
+        "contract": """    requires buf@.len() <= 0xffff, args.upstream_dns_port == configured_port(), args.forward_address is Some ==> args.forward_address->Some_0 == configured_forwarder(), forwarding_mode() == (args.forward_address is Some),
     ensures
         buf@.len() < 2 ==> r is None, // [C09:no_reply_to_a_message_too_short_for_an_id]
         r is None ==> buf@.len() < 2 || (buf@.len() >= 12 && buf@[2] & 0x80 != 0), // [C09:every_message_with_an_id_that_is_not_a_response_is_answered]
